@@ -967,6 +967,10 @@ class _Strip(ast.NodeTransformer):
         if d == "map" and len(node.args) == 2 and not node.keywords and isinstance(node.args[0], (ast.Name, ast.Attribute)):
             v = ast.Name(id="_m", ctx=ast.Load())
             return ast.copy_location(ast.GeneratorExp(elt=ast.Call(func=node.args[0], args=[v], keywords=[]), generators=[ast.comprehension(target=ast.Name(id="_m", ctx=ast.Store()), iter=node.args[1], ifs=[], is_async=0)]), node)
+        # filter(f, xs) -> (x for x in xs if f(x))   (f a named predicate; filter(None, ..) is left alone)
+        if d == "filter" and len(node.args) == 2 and not node.keywords and isinstance(node.args[0], (ast.Name, ast.Attribute)):
+            v = ast.Name(id="_m", ctx=ast.Load())
+            return ast.copy_location(ast.GeneratorExp(elt=v, generators=[ast.comprehension(target=ast.Name(id="_m", ctx=ast.Store()), iter=node.args[1], ifs=[ast.Call(func=node.args[0], args=[ast.Name(id="_m", ctx=ast.Load())], keywords=[])], is_async=0)]), node)
         if isinstance(node.func, ast.Attribute) and node.func.attr == "symmetric_difference" and len(node.args) == 1 and not node.keywords:
             return ast.copy_location(ast.BinOp(left=node.func.value, op=ast.BitXor(), right=node.args[0]), node)
         # (f if c else g)(args) -> f(args) if c else g(args)
@@ -1562,7 +1566,9 @@ def _negate(test: ast.AST) -> ast.AST:
 
 
 def _nnf(test: ast.AST) -> ast.AST:
-    """push ``not`` inwards"""
+    """push ``not`` inwards (and drop a ``bool(...)`` that only feeds a truth test)"""
+    if isinstance(test, ast.Call) and isinstance(test.func, ast.Name) and test.func.id == "bool" and len(test.args) == 1 and not test.keywords:
+        return _nnf(test.args[0])
     if isinstance(test, ast.UnaryOp) and isinstance(test.op, ast.Not):
         inner = test.operand
         if isinstance(inner, (ast.BoolOp, ast.Compare)) or (isinstance(inner, ast.UnaryOp) and isinstance(inner.op, ast.Not)):
